@@ -259,7 +259,8 @@ class Gen:
                 nview += 1
                 base_t = r.choice(sorted(live))
                 views.append(n)
-                add({"k": "view", "name": n, "sql": "create view %s as select * from %s" % (n, base_t)})
+                add({"k": "view", "name": n, "sql": "create view %s (%s) as select * from %s" % (
+                    n, ", ".join("w%d" % j for j in range(len(live[base_t].cols))), base_t)})
             elif k == "index":
                 if not live:
                     continue
@@ -268,7 +269,7 @@ class Gen:
                 t = r.choice(sorted(live))
                 indexes.append(n)
                 add({"k": "index", "name": n, "table": t,
-                     "sql": "create index %s on %s (%s)" % (n, t, live[t].cols[0][0])})
+                     "sql": "create index %s on %s using btree (%s)" % (n, t, live[t].cols[0][0])})
             elif k == "insert":
                 if not live:
                     continue
@@ -607,7 +608,8 @@ def compare_hist(h, impl, model):
     ev = []
     cnt = {"mi": 0, "mi_bad": 0, "io": 0, "io_bad": 0, "mo": 0, "mo_bad": 0, "steps": 0}
     tags = set()
-    stats = {"max_rowsets": 0, "deleted_rows": 0, "merges": 0, "reopens": 0, "dv_rowsets": 0, "bulk_parts": 0}
+    stats = {"max_rowsets": 0, "deleted_rows": 0, "merges": 0, "reopens": 0, "dv_rowsets": 0, "bulk_parts": 0,
+             "reopens_with_data": 0}
     prev_tabs = None
     for k, s in enumerate(h["steps"]):
         key = "H%d.%d" % (h["id"], k)
@@ -639,9 +641,7 @@ def compare_hist(h, impl, model):
                     diffs.append((f, a, b))
         elif ("tabs" in i) != ("tabs" in m):
             diffs.append(("shape", "tabs" in i, "tabs" in m))
-        if diffs:
-            cnt["mi_bad"] += 1
-            ev.append(("corr", k, diffs[0][0], diffs[0][1], diffs[0][2]))
+        corr_pending = diffs[0] if diffs else None
         # --- impl vs oracle (model-free)
         cnt["io"] += 1
         bad = None
@@ -667,9 +667,25 @@ def compare_hist(h, impl, model):
                     if d_rows is not None and c != "ok:%d" % len(d_rows[1]):
                         bad = ("count(*) of %s" % n, c, "ok:%d" % len(d_rows[1]))
             prev_tabs = it
+        if bad is None and "cat" in i and orc.views:
+            have = set(e.split(":")[1] for e in i["cat"].split() if e.endswith(":v"))
+            lost = sorted(orc.views - have)
+            if lost:
+                cnt["io_bad"] += 1
+                ev.append(("viewlost", k, "views after %s" % s["k"], " ".join(sorted(have)), " ".join(sorted(orc.views)), sorted(tags)))
+                orc.views -= set(lost)
         if bad:
             cnt["io_bad"] += 1
             ev.append(("prop", k, bad[0], bad[1], bad[2], sorted(tags)))
+        if corr_pending:
+            model_deviates = bool(m.get("tag")) or m.get("out") in ("panic", "dead")
+            if bad is None and model_deviates and sig_of_tags(tags):
+                # the model is in a recorded-defect mode, the implementation satisfies the property:
+                # the defect was repaired and the model is behind; not a property failure
+                ev.append(("fixed?", k, sig_of_tags(tags)))
+            else:
+                cnt["mi_bad"] += 1
+                ev.append(("corr", k, corr_pending[0], corr_pending[1], corr_pending[2]))
         # --- model vs oracle
         if "spec" in m:
             cnt["mo"] += 1
@@ -689,6 +705,90 @@ def compare_hist(h, impl, model):
             stats["merges"] += 1
         if s["k"] == "reopen" and iout.startswith("ok"):
             stats["reopens"] += 1
+            if i.get("rs", "").strip():
+                stats["reopens_with_data"] += 1
         if diffs or bad:
             break
     return cnt, ev, stats, tags
+
+
+def replay_obj(h, k, impl, model):
+    key = "H%d.%d" % (h["id"], k)
+    return {"history": hist_to_json(h), "line": h["line"], "step": k,
+            "sql_so_far": [s.get("sql", s["k"]) for s in h["steps"][:k + 1]],
+            "impl": impl.get(key), "model": model.get(key)}
+
+
+def evaluate(ck, hists, impl, model, totals, samples):
+    for h in hists:
+        cnt, ev, stats, tags = compare_hist(h, impl, model)
+        for a in cnt:
+            totals[a] = totals.get(a, 0) + cnt[a]
+        nontriv = stats["max_rowsets"] >= 2 and stats["deleted_rows"] >= 1
+        totals["nontrivial"] = totals.get("nontrivial", 0) + (1 if nontriv else 0)
+        for a in ("merges", "reopens"):
+            totals[a] = totals.get(a, 0) + stats[a]
+        totals["max_rowsets"] = max(totals.get("max_rowsets", 0), stats["max_rowsets"])
+        if nontriv:
+            totals.setdefault("distinct", set()).add(h["line"])
+        if stats["reopens_with_data"] >= 1:
+            totals.setdefault("distinct_reopen", set()).add(h["line"])
+            if len(samples) < 3 and not nontriv:
+                samples.append([s.get("sql", s["k"])[:160] for s in h["steps"]])
+        if len(samples) < 3 and nontriv:
+            samples.append([s.get("sql", s["k"])[:160] for s in h["steps"]])
+        seen_sig = None
+        for e in ev:
+            if e[0] == "viewlost":
+                _, k, what, got, exp, tg = e
+                ck.report("reopen:view-not-persisted",
+                          "%s: the catalog has views [%s], acknowledged CREATE VIEW statements say [%s] (CREATE VIEW is never logged)" % (what, got, exp),
+                          replay=replay_obj(h, k, impl, model))
+                if h.get("expect_sig") == "reopen:view-not-persisted":
+                    seen_sig = "reopen:view-not-persisted"
+            if e[0] == "prop":
+                _, k, what, got, exp, tg = e
+                sig = sig_of_tags(tg)
+                step_kind = h["steps"][k]["k"]
+                m = model.get("H%d.%d" % (h["id"], k), {})
+                predicted = ("tabs" in m and canon_tabs(m["tabs"]) == got) or (m.get("out") == got)
+                # once table ids have shifted, row-set files are read under another table's schema:
+                # the model does not define the values that come out, only that the state is wrong
+                if sig == "reopen:view-shifts-table-id":
+                    predicted = True
+                if sig and predicted:
+                    ck.report(sig, "%s: implementation has %s, a plain multiset of the acknowledged statements has %s "
+                              "(model reproduces the implementation; reason %s)" % (what, got[:160], exp[:160], ",".join(tg)),
+                              replay=replay_obj(h, k, impl, model))
+                    seen_sig = sig
+                else:
+                    ck.report("impl:%s:%s" % (step_kind, what.split(" ")[0]),
+                              "%s: implementation %s, expected %s" % (what, got[:200], exp[:200]),
+                              replay=replay_obj(h, k, impl, model))
+            elif e[0] == "corr":
+                _, k, field, a, b = e
+                # a disagreement that is also a property failure is reported by the "prop" event
+                if any(x[0] == "prop" and x[1] == k for x in ev) and sig_of_tags(tags) in (None, "reopen:view-shifts-table-id"):
+                    continue
+                found = any(x[0] == "prop" for x in ev)
+                ck.report("corr:%s:%s" % (h["steps"][k]["k"], field),
+                          "model and implementation disagree on `%s` after step %d (%s): impl=%s model=%s" % (
+                              field, k, h["steps"][k].get("sql", h["steps"][k]["k"])[:100], str(a)[:200], str(b)[:200]),
+                          replay=replay_obj(h, k, impl, model), found_input=found)
+            elif e[0] == "fixed?":
+                ck.notes.append("history %d step %d: model predicts recorded defect %s, implementation behaves correctly" % (h["id"], e[1], e[2]))
+                totals.setdefault("defect_not_shown", []).append(e[2])
+            elif e[0] == "spec":
+                _, k, field, a, b = e
+                ck.report("spec:model-vs-oracle", "the Lean specification and the python multiset oracle disagree at step %d: %s vs %s" % (k, a, b),
+                          replay=replay_obj(h, k, impl, model), found_input=False)
+        if h.get("expect_sig") and seen_sig != h["expect_sig"]:
+            ck.report("witness:%s" % h["expect_sig"],
+                      "the recorded defect %s no longer reproduces on the implementation (repaired? then move it to `fixed`)" % h["expect_sig"],
+                      replay={"history": hist_to_json(h)}, found_input=False)
+            # not a property violation by itself: tell the reader, do not fail the check
+            ck.violations = [v for v in ck.violations if v[0] != "witness:%s" % h["expect_sig"]]
+            ck.notes.append("witness for %s did not reproduce" % h["expect_sig"])
+            totals.setdefault("witness_not_reproduced", []).append(h["expect_sig"])
+
+
